@@ -43,6 +43,12 @@ def correspondence(ctx):
             cases.append(f'prof|{prof}|enforce|f|b|{h}|')
         for prof, rule in (('um', 'width'), ('um', 'case'), ('op', 'addmap'), ('nick', 'addmap')):
             cases.append(f'rules|{prof}|{rule}|{h}')
+    for s_ in straddle_strings(maxn=40 if ctx.tier == 'quick' else 200):
+        h = hexs(s_)
+        cases.append(f'rules|nick|addmap|{h}')
+        cases.append(f'rules|um|case|{h}')
+        cases.append(f'rules|um|width|{h}')
+        cases.append(f'prof|nick|enforce|f|b|{h}|')
     # nickname space rule: the byte-length x position combinations the property names, one length further
     sp = [0x61, 0xE9, 0x65E5, 0x20000, 0x20, 0xA0, 0x3000]
     for s in all_strings(sp, maxlen + 2, maxlen + 1):
